@@ -208,9 +208,9 @@ type textEdit struct {
 }
 
 type fileEdits struct {
-	name  string
-	src   []byte
-	edits []textEdit
+	name    string
+	src     []byte
+	edits   []textEdit
 	imports []string // extra import lines
 }
 
@@ -419,8 +419,8 @@ func planRound(p *Prog, round int) roundPlan {
 	in := &inliner{p: p, round: round, files: map[string]*fileEdits{}, elig: map[*Fn]bool{}}
 	// collect sites
 	var sites []callSite
-	uses := map[*types.Func]int{}      // all references to a helper
-	callUses := map[*types.Func]int{}  // references in expandable call position
+	uses := map[*types.Func]int{}     // all references to a helper
+	callUses := map[*types.Func]int{} // references in expandable call position
 	for _, pkg := range p.Pkgs {
 		info := pkg.TypesInfo
 		for _, file := range pkg.Syntax {
@@ -513,7 +513,29 @@ func planRound(p *Prog, round int) roundPlan {
 		}
 		plan.expanded = append(plan.expanded, caller+" <- "+s.callee.Name())
 	}
-	// the helper bodies that were copied must stay as they were in this round
+	// index loops over a collection become range loops (same iterations, same element expressions)
+	for _, pkg := range p.Pkgs {
+		for _, file := range pkg.Syntax {
+			if strings.HasSuffix(p.Fset.Position(file.Pos()).Filename, "_test.go") {
+				continue
+			}
+			ast.Inspect(file, func(n ast.Node) bool {
+				fs, ok := n.(*ast.ForStmt)
+				if !ok {
+					return true
+				}
+				hdr, ok := in.indexLoopHeader(pkg.TypesInfo, fs)
+				if !ok || overlaps(fs.Pos(), fs.Body.Lbrace) || inFrozen(fs.Pos(), fs.Body.Lbrace) {
+					return true
+				}
+				taken = append(taken, rng{fs.Pos(), fs.Body.Lbrace})
+				fe := in.file(fs.Pos())
+				fe.edits = append(fe.edits, textEdit{start: in.off(fs.Pos()), end: in.off(fs.Body.Lbrace), text: hdr})
+				plan.expanded = append(plan.expanded, "index loop -> range loop at "+p.Rel(fs.Pos()))
+				return true
+			})
+		}
+	}
 	// helpers whose every reference was expanded are removed (optional edit)
 	for fo, n := range done {
 		if n == uses[fo] && n == callUses[fo] {
@@ -542,6 +564,118 @@ func planRound(p *Prog, round int) roundPlan {
 	sort.Strings(plan.expanded)
 	sort.Strings(plan.removed)
 	return plan
+}
+
+// indexLoopHeader recognises `for i := 0; i < len(X); i++ {` where the body
+// neither assigns i nor X, and returns the equivalent range header.
+func (in *inliner) indexLoopHeader(info *types.Info, fs *ast.ForStmt) (string, bool) {
+	init, ok := fs.Init.(*ast.AssignStmt)
+	if !ok || init.Tok != token.DEFINE || len(init.Lhs) != 1 || len(init.Rhs) != 1 {
+		return "", false
+	}
+	iv, ok := init.Lhs[0].(*ast.Ident)
+	if !ok {
+		return "", false
+	}
+	if tv, ok := info.Types[init.Rhs[0]]; !ok || tv.Value == nil || tv.Value.ExactString() != "0" {
+		return "", false
+	}
+	iobj := info.Defs[iv]
+	cond, ok := fs.Cond.(*ast.BinaryExpr)
+	if !ok || cond.Op != token.LSS {
+		return "", false
+	}
+	if id, ok := ast.Unparen(cond.X).(*ast.Ident); !ok || info.Uses[id] != iobj {
+		return "", false
+	}
+	lc, ok := ast.Unparen(cond.Y).(*ast.CallExpr)
+	if !ok || len(lc.Args) != 1 {
+		return "", false
+	}
+	if id, ok := lc.Fun.(*ast.Ident); !ok || id.Name != "len" {
+		return "", false
+	} else if _, isB := info.Uses[id].(*types.Builtin); !isB {
+		return "", false
+	}
+	coll := lc.Args[0]
+	if !callFree(coll) {
+		return "", false
+	}
+	switch info.TypeOf(coll).Underlying().(type) {
+	case *types.Slice, *types.Array:
+	default:
+		return "", false // strings range over runes, maps have no index
+	}
+	post, ok := fs.Post.(*ast.IncDecStmt)
+	if !ok || post.Tok != token.INC {
+		return "", false
+	}
+	if id, ok := post.X.(*ast.Ident); !ok || info.Uses[id] != iobj {
+		return "", false
+	}
+	// the body must not assign i or the collection
+	collRoot := coll
+	for {
+		switch x := ast.Unparen(collRoot).(type) {
+		case *ast.SelectorExpr:
+			collRoot = x.X
+			continue
+		}
+		break
+	}
+	var collObj types.Object
+	if id, ok := ast.Unparen(collRoot).(*ast.Ident); ok {
+		collObj = info.Uses[id]
+	}
+	collText := in.text(coll.Pos(), coll.End())
+	bad := false
+	uses := 0
+	ast.Inspect(fs.Body, func(n ast.Node) bool {
+		mark := func(e ast.Expr) {
+			e = ast.Unparen(e)
+			if id, ok := e.(*ast.Ident); ok && (info.Uses[id] == iobj || (collObj != nil && info.Uses[id] == collObj)) {
+				bad = true
+			}
+			if in.text(e.Pos(), e.End()) == collText {
+				bad = true
+			}
+		}
+		switch s := n.(type) {
+		case *ast.Ident:
+			if info.Uses[s] == iobj {
+				uses++
+			}
+		case *ast.AssignStmt:
+			for _, l := range s.Lhs {
+				mark(l)
+			}
+		case *ast.IncDecStmt:
+			mark(s.X)
+		case *ast.UnaryExpr:
+			if s.Op == token.AND {
+				if id, ok := ast.Unparen(s.X).(*ast.Ident); ok && info.Uses[id] == iobj {
+					bad = true
+				}
+			}
+		case *ast.RangeStmt:
+			if s.Tok == token.ASSIGN {
+				if s.Key != nil {
+					mark(s.Key)
+				}
+				if s.Value != nil {
+					mark(s.Value)
+				}
+			}
+		}
+		return !bad
+	})
+	if bad {
+		return "", false
+	}
+	if uses == 0 {
+		return "for range " + collText + " ", true
+	}
+	return "for " + iv.Name + " := range " + collText + " ", true
 }
 
 // keepImportsUsed cancels the removals in a file when they would leave one of
@@ -938,13 +1072,13 @@ type bodyBuilder struct {
 	id   int
 	nres int
 
-	sig      *types.Signature
-	params   []*types.Var // receiver first
-	args     []ast.Expr
-	argText  []string
-	subst    map[*types.Var]string // parameters replaced by argument text
-	binds    []string              // "name" of bound parameters, parallel to bindArgs
-	bindArgs []string
+	sig        *types.Signature
+	params     []*types.Var // receiver first
+	args       []ast.Expr
+	argText    []string
+	subst      map[*types.Var]string // parameters replaced by argument text
+	binds      []string              // "name" of bound parameters, parallel to bindArgs
+	bindArgs   []string
 	localNames map[string]bool
 }
 
